@@ -143,6 +143,7 @@ impl FileView {
 
 impl FileView {
 //@extract method bigtools/src/utils/file/file_view.rs new "^impl FileView$"
+//@rule R16
 //@sub /\bFile\b/ => VFile
 //@sub /io::Result<(\w+)>/ => Result<\1, IoError>
 //@sub /io::SeekFrom::/ => SeekFrom:: min=0
@@ -164,6 +165,7 @@ impl FileView {
 
 impl FileView {
 //@extract method bigtools/src/utils/file/file_view.rs read "impl Read for FileView"
+//@rule R16
 //@sub /io::Result<(\w+)>/ => Result<\1, IoError>
 //@sub /io::SeekFrom::/ => SeekFrom:: min=0
 //@ret r
@@ -209,6 +211,7 @@ impl FileView {
 
 impl FileView {
 //@extract method bigtools/src/utils/file/file_view.rs seek "impl Seek for FileView"
+//@rule R16
 //@rule R6 min=3
 //@sub /io::Result<(\w+)>/ => Result<\1, IoError>
 //@sub /io::SeekFrom/ => SeekFrom min=0
